@@ -94,7 +94,7 @@ Inductive c09case :=
 (* MakeBlock on an array; Go: class+bytes of MarshalBinary, digest of MakeLabelVolume, digest after
    Unmarshal(Marshal), sample points with Value and GetPointLabels results, CalcNumLabels(nil) sorted *)
 | CEnc (gx gy gz : N) (ps : list paint)
-       (go_bytes : res bytes) (go_dec go_dec2 : N) (pts : list pt) (go_val go_pt : list N)
+       (go_bytes : res bytes) (go_dec go_dec2 go_wlv : N) (pts : list pt) (go_val go_pt : list N)
        (go_counts : list (N * N))
 (* SubvolumeToBlock on a volume (wx wy wz) at block offset (ox oy oz) *)
 | CSub (wx wy wz ox oy oz gx gy gz : N) (ps : list paint) (go_bytes : res bytes) (go_dec : N)
@@ -108,6 +108,10 @@ Inductive c09case :=
    MakeLabelVolume digest, Value at sample points *)
 | CDec (gx gy gz : N) (ps : list paint) (tbl : list N) (bytes_in : bytes) (go_dec : res N)
        (pts : list pt) (go_val : list N)
+(* independence of a parsed block from the bytes it was parsed from: Go parses block A from a buffer,
+   overwrites the buffer, and decodes A again (go_after1); marshals A, parses a clone from those
+   bytes, overwrites the clone's label table in place, and decodes A again (go_after2) *)
+| CAlias (gx gy gz : N) (ps : list paint) (go_after1 go_after2 : res N)
 (* WriteRLEs over a stream of positioned blocks (in the given order); Go: each block's bytes, sorted runs *)
 | CRleM (gx gy gz : N) (blocks : list (list paint * (Z * Z * Z))) (lbls : list N)
         (go_blocks : list (res bytes)) (go_runs : res (list run))
@@ -169,7 +173,7 @@ Fixpoint runs_cover (gx gy gz : N) (arrs : list (list N * (Z * Z * Z))) (lbls : 
 (* implementation output = model output *)
 Definition model_ok (c : c09case) : bool :=
   match c with
-  | CEnc gx gy gz ps go_bytes go_dec go_dec2 pts go_val go_pt go_counts =>
+  | CEnc gx gy gz ps go_bytes go_dec go_dec2 go_wlv pts go_val go_pt go_counts =>
     let a := expand (8 * gx) (8 * gy) (8 * gz) ps in
     match go_bytes with
     | Ok bs =>
@@ -177,6 +181,7 @@ Definition model_ok (c : c09case) : bool :=
         res_eqb bytes_eqb (match encode (b_labels b) a gx gy gz with Ok b' => Ok (marshal b') | Err => Err | Panic => Panic end) (Ok bs)
         && res_eqb N.eqb (match decode b with Ok d => Ok (digest d) | Err => Err | Panic => Panic end) (Ok go_dec)
         && (go_dec2 =? go_dec)
+        && (go_wlv =? go_dec)     (* WriteLabelVolume streams what MakeLabelVolume returns *)
         && list_eqb (res_eqb N.eqb) (map (fun p => let '(x, y, z) := p in value_at b x y z) pts) (map Ok go_val)
         && list_eqb (res_eqb N.eqb) (map (fun p => let '(x, y, z) := p in point_label b x y z) pts) (map Ok go_pt)
         && res_eqb assoc_eqb (match calc_num_labels b with Ok d => Ok (sort_assoc d) | Err => Err | Panic => Panic end) (Ok go_counts))
@@ -211,6 +216,10 @@ Definition model_ok (c : c09case) : bool :=
            end
          | _ => true
          end)
+  | CAlias gx gy gz ps go_after1 go_after2 =>
+    (* values are immutable in the model: a block never changes after it was parsed *)
+    let d := digest (expand (8 * gx) (8 * gy) (8 * gz) ps) in
+    res_eqb N.eqb go_after1 (Ok d) && res_eqb N.eqb go_after2 (Ok d)
   | CRleM gx gy gz blocks lbls go_blocks go_runs =>
     match go_block_list go_blocks (map snd blocks) with
     | Some bl => res_eqb (list_eqb run_eqb)
@@ -238,13 +247,14 @@ Definition model_ok (c : c09case) : bool :=
    0 holds; 1 panic; 2 decode(encode a) differs from a; 3 unmarshal(marshal) changed the block;
    4 value at a point differs; 5 counts differ; 6 an encode/view call failed on legal input;
    (7 retired: odd sub-block counts, repaired by C09-2-fix);
-   8 run-length view differs; 9 binary view differs *)
+   8 run-length view differs; 9 binary view differs; 10 streamed decode (WriteLabelVolume) differs;
+   11 a parsed block changed when the bytes it came from, or a clone of it, were overwritten *)
 Definition legal_size (gx gy gz : N) : bool :=
   (2 <=? gx) && (gx <=? 128) && (2 <=? gy) && (gy <=? 128) && (2 <=? gz) && (gz <=? 128).
 
 Definition spec_class (c : c09case) : nat :=
   match c with
-  | CEnc gx gy gz ps go_bytes go_dec go_dec2 pts go_val go_pt go_counts =>
+  | CEnc gx gy gz ps go_bytes go_dec go_dec2 go_wlv pts go_val go_pt go_counts =>
     let a := expand (8 * gx) (8 * gy) (8 * gz) ps in
     match go_bytes with
     | Panic => 1%nat
@@ -252,6 +262,7 @@ Definition spec_class (c : c09case) : nat :=
     | Ok _ =>
       if negb (go_dec =? digest a) then 2%nat
       else if negb (go_dec2 =? digest a) then 3%nat
+      else if negb (go_wlv =? digest a) then 10%nat
       else if negb (list_eqb (res_eqb N.eqb) (map (arr_at a (8 * gx) (8 * gy)) pts) (map Ok go_val)) then 4%nat
       else if negb (list_eqb (res_eqb N.eqb) (map (arr_at a (8 * gx) (8 * gy)) pts) (map Ok go_pt)) then 4%nat
       else if negb (assoc_eqb (true_counts a) go_counts) then 5%nat
@@ -287,6 +298,13 @@ Definition spec_class (c : c09case) : nat :=
     | Ok [], _ => if existsb (fun l => mem l lbls) a then 9%nat else 0%nat
     | Ok _, Ok m => if m =? bools_digest (map (fun l => mem l lbls) a) then 0%nat else 9%nat
     | Ok _, Err => 9%nat
+    end
+  | CAlias gx gy gz ps go_after1 go_after2 =>
+    let d := digest (expand (8 * gx) (8 * gy) (8 * gz) ps) in
+    match go_after1, go_after2 with
+    | Panic, _ | _, Panic => 1%nat
+    | Ok d1, Ok d2 => if (d1 =? d) && (d2 =? d) then 0%nat else 11%nat
+    | _, _ => 6%nat
     end
   | CRleM gx gy gz blocks lbls go_blocks go_runs =>
     let arrs := map (fun e : list paint * (Z * Z * Z) => (expand (8 * gx) (8 * gy) (8 * gz) (fst e), snd e)) blocks in
